@@ -4,9 +4,11 @@ package simpledb
 
 import (
 	"errors"
+	"math"
 	"time"
 
 	"github.com/thomasjungblut/go-sstables/memstore"
+	dbproto "github.com/thomasjungblut/go-sstables/simpledb/proto"
 	"github.com/thomasjungblut/go-sstables/sstables"
 	"github.com/thomasjungblut/go-sstables/vrt"
 )
@@ -313,4 +315,108 @@ func (h *vDB) overlap(s int, kg []byte, nv int) {
 	okBefore := (before.present && err == nil && vrt.EqBytes(got, before.val)) || (!before.present && errors.Is(err, ErrNotFound))
 	okAfter := (after.present && err == nil && vrt.EqBytes(got, after.val)) || (!after.present && errors.Is(err, ErrNotFound))
 	vrt.Assert(okBefore || okAfter, "two/get-explained-by-one-of-the-two-orders")
+}
+
+// H_C05_GetVsCompaction: the reflection of a finished compaction (old readers closed, tables removed, merged table
+// swapped in) may start at any synchronisation point of a Get. Where it has to wait for the database lock the Get
+// holds, it waits (the attempt is abandoned and repeated later); wherever it gets in, the Get must still answer
+// like the map and without error.
+func H_C05_GetVsCompaction() {
+	vrt.RandPromoteBudget(0)
+	h := vNewDBEnvU(vUniverse[:1])
+	defer h.fs.Cleanup()
+	key := vUniverse[0]
+	vrt.Assert(h.open(MemstoreSizeBytes(math.MaxUint64), WriteBufferSizeBytes(64), ReadBufferSizeBytes(64)) == nil, "gc/open-no-error")
+	h.put(key, []byte{1})
+	h.forceRotation()
+	if vrt.Choose("second", 2) == 0 {
+		h.put(key, []byte{2})
+	} else {
+		h.del(key)
+	}
+	h.forceRotation()
+	if vrt.Choose("inmem", 2) == 1 {
+		h.put(key, []byte{3})
+	}
+	h.db.compactedMaxSizeBytes = math.MaxUint64
+	h.db.compactionFileThreshold = 1
+	var meta *dbproto.CompactionMetadata
+	h.inBackground = true
+	vrt.RunAs(2, func() {
+		m, err := executeCompaction(h.db)
+		vrt.Assert(err == nil && m != nil, "gc/compaction-no-error")
+		meta = m
+	})
+	h.inBackground = false
+	if meta == nil {
+		return
+	}
+	reflected := false
+	reflect := func() {
+		vrt.Assert(h.db.sstableManager.reflectCompactionResult(meta) == nil, "gc/reflect-no-error")
+	}
+	r := h.refOf(key)
+	var got []byte
+	var err error
+	if vrt.Symbolic() {
+		n := 0
+		vrt.OnSync(func(kind string) {
+			if reflected {
+				return
+			}
+			n++
+			if vrt.Choose(vrt.K("inj", n), 2) == 1 {
+				if vrt.TryRunAs(2, reflect) {
+					reflected = true
+					if vrt.LocksHeld() > 0 {
+						vrt.Reach("gc/reflection-ran-inside-a-lock-section-of-the-get")
+					}
+				} else {
+					vrt.Reach("gc/reflection-had-to-wait-for-the-get")
+				}
+			}
+		})
+		got, err = h.db.GetBytes(key)
+		vrt.OnSync(func(kind string) {})
+	} else {
+		inj := false
+		for n := 1; n <= 16; n++ {
+			if vrt.Choose(vrt.K("inj", n), 2) == 1 {
+				inj = true
+			}
+		}
+		if inj {
+			// the Get is parked on the manager lock (inside its database read-lock section), the reflection
+			// is started, then the manager lock is released
+			h.db.sstableManager.managerLock.Lock()
+			g := h.start(func() { got, err = h.db.GetBytes(key) })
+			h.waitParkedOrDone(g)
+			c := h.start(reflect)
+			h.waitParkedOrDone(c)
+			h.db.sstableManager.managerLock.Unlock()
+			<-g.done
+			<-c.done
+			if g.pnc != nil {
+				panic(g.pnc)
+			}
+			if c.pnc != nil {
+				panic(c.pnc)
+			}
+			reflected = true
+		} else {
+			got, err = h.db.GetBytes(key)
+		}
+	}
+	if !reflected {
+		reflect()
+	}
+	if r.present {
+		vrt.Assert(err == nil && vrt.EqBytes(got, r.val), "gc/get-answers-like-the-map-while-tables-are-replaced")
+	} else {
+		vrt.Assert(errors.Is(err, ErrNotFound), "gc/get-of-deleted-key-not-found-while-tables-are-replaced")
+	}
+	h.checkReads("gc/reads-after")
+	h.close()
+	vrt.TraceBool("done", true)
+	vrt.Reach("gc/end")
 }
